@@ -2,7 +2,7 @@ SPECIFICATION Spec
 CONSTANTS
   Names = {"a", "b", "c"}
   Values = {"x", "y"}
-  Encs = {"xor", "hist"}
+  Encs = {"xor"}
   MaxSeries = 3
   MaxChunks = 1
   NVals = {2}
